@@ -9,7 +9,7 @@ Proved for ALL inputs:
   a guarded move — different servers, source holds, destination lacks — keeps the number of holders of EVERY
   (volume, shard) (`move_preserves_shards`), and so does any sequence of guarded moves
   (`guarded_moves_preserve_shards`); a pick of `pickNEcShardsToMoveFrom` followed by its move does too
-  (`pick_then_move_preserves_shards`); a move onto a holder loses one copy (`move_onto_holder_loses_copy`);
+  (`pick_then_move_preserves_shards`, `across_move_places_picked`); a move onto a holder loses one copy (`move_onto_holder_loses_copy`);
   the per-rack guard makes every move guarded (`rack_move_is_guarded`), the within-rack guard does as soon as
   the destination lacks the shard (`within_move_is_guarded`: that hypothesis is the open finding);
 * deduplication (`ESt.dedupShard` / `dedupRun`, the applyBalancing branch) removes only duplicates: a treated
@@ -337,6 +337,37 @@ theorem dedup_removes_only_duplicates (vid : Nat) (steps : List (Nat × Nat)) :
 def wDup : ESt := ⟨[⟨1, 1, 3, true, [(1, 7)]⟩, ⟨2, 1, 5, true, [(1, 3)]⟩, ⟨3, 2, 4, true, [(1, 9)]⟩], [(1, 8), (2, 4)]⟩
 example : (dedupRun 1 wDup [(0, 1), (1, 1), (2, 1), (3, 3)]).map (fun st => (copies st 1 0, copies st 1 1, copies st 1 2, copies st 1 3))
     = some (1, 1, 1, 1) ∧ copies wDup 1 0 = 3 := by decide
+
+/-- the across-racks step on the model (`Across.applyMove`): the picked shard — already deleted from its source by
+    `pickNEcShardsToMoveFrom` — reappears at the destination: one holder more when the destination lacked it,
+    every other (volume, shard) unchanged -/
+theorem across_move_places_picked (a : Across) (src s dst : Nat) (sn dn : ENode)
+    (hu : (a.st.nodes.map (·.id)).Nodup) (hs : a.st.node? src = some sn) (hd : a.st.node? dst = some dn) (hne : src ≠ dst)
+    (h1 : holdsShard sn a.vid s = false) (h2 : holdsShard dn a.vid s = false) (vid' j : Nat) :
+    copies (a.applyMove src s dst).st vid' j = copies a.st vid' j + (if vid' = a.vid ∧ j = s then 1 else 0) := by
+  have key := Lemmas.C16.copies_move a.st src dst a.vid s sn dn hu hs hd hne vid' j
+  have hst : copies (a.applyMove src s dst).st vid' j = copies (a.st.move src dst a.vid s) vid' j := by
+    unfold Across.applyMove
+    simp only [hs, hd]
+    rfl
+  rw [hst]
+  by_cases hk : vid' = a.vid ∧ j = s
+  · simp [hk, h1, h2] at key ⊢
+    obtain ⟨rfl, rfl⟩ := hk
+    exact key
+  · have e1 : ¬ (vid' = a.vid ∧ j = s ∧ holdsShard sn a.vid s = true) := fun h => hk ⟨h.1, h.2.1⟩
+    have e2 : ¬ (vid' = a.vid ∧ j = s ∧ holdsShard dn a.vid s = false) := fun h => hk ⟨h.1, h.2.1⟩
+    simp only [e1, e2, hk, if_false] at key ⊢
+    omega
+
+/-! hypotheses of the conservation theorems are satisfiable -/
+example : guardOk wMove 1 3 1 0 = true ∧ (wMove.nodes.map (·.id)).Nodup := by decide
+example : ∃ sn dn, wHold.node? 1 = some sn ∧ wHold.node? 2 = some dn ∧ holdsShard sn 1 0 = true ∧ holdsShard dn 1 0 = true ∧
+    copies (wHold.move 1 2 1 0) 1 0 + 1 = copies wHold 1 0 := ⟨_, _, rfl, rfl, by decide, by decide, by decide⟩
+example : ∃ sn dn, wMove.node? 1 = some sn ∧ wMove.node? 3 = some dn ∧ holdsShard sn 1 0 = true ∧ holdsShard dn 1 0 = false ∧
+    copies ((wMove.upd 1 (·.del 1 0)).move 1 3 1 0) 1 0 = copies wMove 1 0 := ⟨_, _, rfl, rfl, by decide, by decide, by decide⟩
+example : withinMoveOk wMove 2 1 1 0 2 = true ∧ ∀ dn, wMove.node? 2 = some dn → holdsShard dn 1 0 = false := by decide
+example : dedupKeepOk wDup 1 0 1 = true ∧ (wDup.nodes.map (·.id)).Nodup := by decide
 
 /-! ### ceiling division -/
 
